@@ -358,6 +358,9 @@ func c04Atomic(c *core.Ctx) {
 	for _, fn := range storeFns(c, "C04-atomic", "Reorg") {
 		n := ruleTxPair(c, "C04-atomic", fn)
 		n += ruleTxThrough(c, "C04-atomic", fn)
+		// a failed step of the rewind ends the reorg with that error (never a commit or a success report with part of the
+		// rows still there); shared with C07's TX-err
+		n += ruleTxErr(c, "C04-atomic", fn)
 		if n == 0 {
 			writes := 0
 			core.Instrs(fn, func(i ssa.Instruction) {
@@ -415,7 +418,7 @@ func init() {
 	register(&Property{
 		ID:    "C04",
 		Level: "other",
-		Explanation: "Decides the structural necessary conditions of 'a reorg leaves the node as if the dropped blocks had never been seen': C04-cascade — the final schema of each of the three stores is computed from the embedded migrations (files and order read from the Go AST; unlisted .sql files and unknown DDL fail) and every table other than block references block(num) ON DELETE CASCADE; tree root rows carry block_num and rht is content-addressed; C04-fk — the only sql.Open is db.NewSQLiteDB whose DSN enables foreign keys and every store handle comes from it; C04-trees — each Reorg binds `DELETE FROM block WHERE num >= $1` to firstReorgedBlock and rewinds every tree-typed field of its processor (computed from the struct type) with the same tx and argument on every committing path, and Tree.Reorg deletes root rows with block_num >= $1; C04-atomic — Reorg transaction pairing and every write through the tx (lastgersync: single statement); C04-frontier — initCache rewrites both in-memory frontier fields from the last stored root on every successful return (with TX-mem's mismatch-rebuild obligation this forces a rebuild after leaves were removed; the index comparison itself is value-level). Observational equivalence of all queries for all histories and SQLite's cascade semantics are not decided.",
+		Explanation: "Decides the structural necessary conditions of 'a reorg leaves the node as if the dropped blocks had never been seen': C04-cascade — the final schema of each of the three stores is computed from the embedded migrations (files and order read from the Go AST; unlisted .sql files and unknown DDL fail) and every table other than block references block(num) ON DELETE CASCADE; tree root rows carry block_num and rht is content-addressed; C04-fk — the only sql.Open is db.NewSQLiteDB whose DSN enables foreign keys and every store handle comes from it; C04-trees — each Reorg binds `DELETE FROM block WHERE num >= $1` to firstReorgedBlock and rewinds every tree-typed field of its processor (computed from the struct type) with the same tx and argument on every committing path, and Tree.Reorg deletes root rows with block_num >= $1; C04-atomic — Reorg transaction pairing, every write through the tx, and a failed write/rewind step always ends the reorg with its error (lastgersync: single statement); C04-frontier — initCache rewrites both in-memory frontier fields from the last stored root on every successful return (with TX-mem's mismatch-rebuild obligation this forces a rebuild after leaves were removed; the index comparison itself is value-level). Observational equivalence of all queries for all histories and SQLite's cascade semantics are not decided.",
 		Rules: []Rule{
 			{ID: "C04-tree", Floor: 9, Run: func(c *core.Ctx) { storeRule(c, "C04-tree") }, Text: "(shared with C08-store) node storage tolerates rows left by a dropped fork without skipping the rest of the branch"},
 			{ID: "C04-resume", Floor: 3, Run: shared("C04-resume", c05Restart), Text: "(shared with C05-restart) after a reorg the download restarts at lastProcessed+1, whatever block the detector named"},
@@ -423,7 +426,7 @@ func init() {
 			{ID: "C04-fk", Floor: 4, Run: c04FK, Text: "[WHO]+const: single sql.Open with _foreign_keys=on; stores use it"},
 			{ID: "C04-trees", Floor: 6, Run: c04Trees, Text: "[WHO]+[PROV]+[DOM] every tree field rewound with (tx, firstReorgedBlock) before Commit; block delete bound to it"},
 			{ID: "C04-destructive", Floor: 15, Run: c04Destructive, Text: "[WHO] block processing only inserts; a DELETE/UPDATE in the ProcessBlock cone is not undone by a reorg (2 known findings)"},
-			{ID: "C04-atomic", Floor: 5, Run: c04Atomic, Text: "[TX] Reorg pairing and write-through"},
+			{ID: "C04-atomic", Floor: 12, Run: c04Atomic, Text: "[TX] Reorg pairing, write-through, and no carried-on failure of a rewind step"},
 			{ID: "C04-frontier-mem", Floor: 6, Run: c07TxMem, Text: "[TX] (shared with C07 TX-mem) frontier writes under the rollback registration; mismatch rebuilds"},
 			{ID: "C04-frontier", Floor: 3, Run: c04Frontier, Text: "[DOM] initCache rewrites lastIndex and lastLeftCache on every successful return"},
 		},
